@@ -18,11 +18,13 @@
     §2 selection diagrams          `mem_nodes/mem_di/bi_createTransportDiagram`, `tnode_parentless`,
                                    `getNodesToTransport_spec`, `getNodesToTransport_total`
     §3 vocabulary (C06)            `trso_vocab_C05`, `trso_no_domains_target_only`   (proofs in Props/C06Transport)
-       no surrogate = ID           `trso_no_surrogate_iff_id_partial`, `trso_no_surrogate_none_iff_id_partial` (verdicts)
-    §4 semantics                   `den_sumSafe`, `line1_den`  (line 1 is marginalisation of the carried distribution)
-  What is NOT proved (visible below as `-- OPEN:` blocks and listed in ASSUMPTIONS of the harness module):
-    trso_sound; the denotation part of trso_no_surrogate_iff_id; trso_no_internal_error for inputs with declared
-    experiments beyond "only `activate`'s NotImplementedError" (that `activate` never meets `One()`).
+       no surrogate = ID           `trso_no_surrogate_iff_id_partial`, `trso_no_surrogate_none_iff_id_partial` (verdicts),
+                                   `trso_sound_no_surrogate`, `trso_no_surrogate_den_eq_id` (denotations)
+    §4 semantics                   `den_sumSafe`, `line1_den`, and **`trso_sound`** (the first sentence of the property, at
+                                   full strength: every run, every compatible family, every assignment)
+  What is NOT proved (visible below as an `-- OPEN:` block and listed in ASSUMPTIONS of the harness module):
+    trso_no_internal_error for inputs with declared experiments beyond "only `activate`'s NotImplementedError" (that
+    `activate` never meets `One()`).
 -/
 import Y0.Props.C06Transport
 import Y0.Lemmas.TrsoTotal
@@ -35,6 +37,7 @@ import Y0.Lemmas.TrsoAll
 import Y0.Props.C02
 import Y0.Props.C01
 import Y0.Lemmas.TrsoSoundNoSurr
+import Y0.Lemmas.TrsoSound
 
 namespace Y0
 namespace Trso
@@ -489,21 +492,93 @@ theorem line1_den (env : Env) (σ' : Val) (Y : List Name) (e : Expr) (G : MG Nam
   unfold line1
   rw [den_sumSafe]
 
--- OPEN: trso_sound  (the first sentence of the property)
---   theorem trso_sound (G : MG Name) (hG : G.WF) (hA : G.Acyclic) (hT : ∀ v ∈ G.nodes, isTnode v = false)
---       (hv : validInput G Y X outcomes interventions = true) (hX : X ≠ []) (hY : Y ≠ [])
---       (h : identifyTargetOutcomes dSeparated G Y X outcomes interventions = .ok (some e))
---       (F : Family) (Δ : List (Name × List Name))
---       (hΔ : ∀ d Z W, (d, Z) ∈ interventions → (d, W) ∈ outcomes → ∃ ns, (d, ns) ∈ Δ ∧ ∀ v, v ∈ ns ↔ MayDiffer G Z W v)
---       (hF : F.SelectionCompatible G Δ) :
---       ∀ σ σ', den F.env σ' e σ = F.targetEffect G X Y σ
---   Proof plan (DESIGN.md 4, C05): invariant "the carried expression denotes Q[V(G_cur)] of the CURRENT domain under the
---   active experiment and the call returns Σ_{V_cur−(X∪Y)} Q[V_cur−X] of the TARGET"; lines 1-3 by (sink), line 4 by
---   (split), lines 9/10 by (ratio) — the three Q-factor lemmas of the `id` family — and line 6 by the transport version
---   of do-calculus rule 2 over `Family` (selection nodes separated from Y given X in the diagram without edges into X ⇒
---   P*_x(y) = P^π_x(y)), which is literature (Bareinboim & Pearl 2014; Tikka & Karvanen 2019), not mechanised here.
---   The exact-rational multi-domain oracle of harness/oracles/family_eval.py decides this clause on every run for every
---   returned estimand, on two random families per case, at every value assignment.
+/-- **C05, first sentence: TRSO is sound.**  For every validated input over a well-formed acyclic graph of user
+variables (names below 100) with non-empty outcomes, whenever `identify_target_outcomes` (instantiated with
+`are_d_separated`) returns an estimand `e`, then in EVERY multi-domain family of positive semi-Markovian models that is
+compatible with the derived selection diagrams — `F.SelectionCompatible G Δ` (Y0/Spec/FamilySpec.lean): every source
+domain has the target's cardinalities, latent variables, latent priors and mechanisms except at the variables `Δ_d`,
+where `Δ_d` is, for every declared pair (experiments `Z`, surrogate outcomes `W`) of domain `d`, the set `MayDiffer G Z W`
+at which `get_nodes_to_transport` places selection nodes (`getNodesToTransport_spec`) — evaluating `e` with the target's
+observational distribution (leaves tagged "pi*") and each source domain's declared experimental distributions (leaves
+`PP[d](… @ z)`, read by `Family.env` from the model of `d` under `do(z)`) gives exactly the target effect
+`P*(y | do(x))` (`Family.targetEffect`: truncated factorisation in the target model), at every value assignment.
+No restriction on the run: any number of source experiments may be used, at any depth of the recursion.
+
+Proof (Lemmas/TrsoSound): the soundness engine (Lemmas/TrsoSemAll: recursion invariant "the carried expression denotes
+the c-factor `Q[V_cur]` of the CURRENT domain's model"; lines 1-4, 9, 10 by the c-factor lemmas of Lemmas/QFactor) is run
+in the target domain and, at every application of line 6, inside the source domain, where every leaf is read as the leaf
+`activate_domain_and_interventions` turns it into (Lemmas/TrsoDenAct, TrsoSrcCtx); line 6 itself is
+`spec_transport` (Lemmas/TrsoSemL6): a positive separation test means no variable of `V_cur ∖ X` carries a selection
+node, so `Q[V_cur ∖ X]` is made of mechanisms the two domains share. -/
+theorem trso_sound (G : MG Name) (hG : G.WF) (hA : G.Acyclic) (hsmall : ∀ v ∈ G.nodes, v < 100) (Y X : List Name)
+    (outcomes interventions : List (Pop × List Name)) (hv : validInput G Y X outcomes interventions = true) (hY : Y ≠ [])
+    (e : Expr) (h : identifyTargetOutcomes dSeparated G Y X outcomes interventions = .ok (some e))
+    (F : Family) (Δ : List (Name × List Name))
+    (hΔ : ∀ d Z W, (d, Z) ∈ interventions → (d, W) ∈ outcomes → ∃ ns, (d, ns) ∈ Δ ∧ ∀ v, v ∈ ns ↔ MayDiffer G Z W v)
+    (hF : F.SelectionCompatible G Δ) (σ' σ : Val) :
+    den F.env σ' e σ = F.targetEffect G X Y σ := by
+  obtain ⟨graphs, hg⟩ := surrogateToTransport_ok hG hv
+  have hr : G.Ranked := MG.acyclic_ranked hG hA
+  have hspec := surrogateToTransport_spec' hG hv hg
+  have htag : F.dom (some targetPop) = F.dom none := hF.target_tag
+  -- every source domain of a diagram has an entry in `Δ`
+  have hsrc : ∀ p ∈ graphs, p ≠ (targetPop, G) → ∃ Z W ns ns', (p.1, Z) ∈ interventions ∧ (p.1, W) ∈ outcomes ∧
+      getNodesToTransport G Z W = .ok ns ∧ p.2 = createTransportDiagram G ns ∧ (p.1, ns') ∈ Δ ∧
+      ∀ v, v ∈ ns' ↔ MayDiffer G Z W v := by
+    intro p hp hne
+    rcases hspec p hp with h0 | ⟨Z, W, ns, hZ, hW, hns, hp2⟩
+    · exact absurd h0 hne
+    · obtain ⟨ns', hns', hiff⟩ := hΔ p.1 Z W hZ hW
+      exact ⟨Z, W, ns, ns', hZ, hW, hns, hp2, hns', hiff⟩
+  have hdom : ∀ d ∈ targetPop :: graphs.map (fun p => p.1), (F.dom (some d)).Compatible G ∧
+      SameExo (F.dom none) (F.dom (some d)) := by
+    intro d hd
+    rcases List.mem_cons.1 hd with rfl | hd
+    · rw [htag]; exact ⟨hF.target, rfl, rfl, rfl⟩
+    · obtain ⟨p, hp, rfl⟩ := List.mem_map.1 hd
+      by_cases hne : p = (targetPop, G)
+      · subst hne; show (F.dom (some targetPop)).Compatible G ∧ _
+        rw [htag]; exact ⟨hF.target, rfl, rfl, rfl⟩
+      · obtain ⟨_, _, _, ns', _, _, _, _, hns', _⟩ := hsrc p hp hne
+        obtain ⟨hc, ha⟩ := hF.source _ hns'
+        exact ⟨hc, ha.card, ha.lat, ha.prior⟩
+  have hgood : FamGood F G (targetPop :: graphs.map (fun p => p.1)) graphs := by
+    refine ⟨⟨hF.graph, hF.target, fun n hn => (hdom n hn).1, fun n hn => (hdom n hn).2.card, hG, hr⟩, htag,
+      fun d hd => (hdom d hd).2, ?_⟩
+    intro p hp v hdiff hvreg
+    by_cases hne : p = (targetPop, G)
+    · subst hne
+      exact absurd (by show (F.dom (some targetPop)).kern v = _; rw [htag]) hdiff
+    · obtain ⟨Z, W, ns, ns', hZin, hWin, hns, hp2, hns', hiff⟩ := hsrc p hp hne
+      obtain ⟨_, ha⟩ := hF.source _ hns'
+      have hnsG : ∀ s ∈ ns, s ∈ G.nodes := by
+        obtain ⟨_, _, hWv, hZv, _, _, _⟩ := validInput_spec hv
+        obtain ⟨ns2, hns2, hsub⟩ := getNodesToTransport_ok hG (hZv _ hZin) (hWv _ hWin)
+        rw [hns] at hns2
+        cases hns2
+        exact hsub
+      rw [hp2] at hvreg ⊢
+      have hvG : v ∈ G.nodes := (rsub_ctd hsmall hnsG).nodes v hvreg
+      have hvns' : v ∈ ns' := by
+        by_contra hnot
+        exact hdiff (ha.kern v hvG hnot)
+      have hvns : v ∈ ns := (getNodesToTransport_spec G hG Z W ns hns v).2 ((hiff v).1 hvns')
+      exact (ctd_mem_di G ns (tnode v, v)).2 (Or.inr ⟨v, hvns, rfl⟩)
+  exact trso_sound_core G hG hA hsmall Y X outcomes interventions hv hY e h graphs hg F hgood σ' σ
+
+set_option maxRecDepth 100000 in
+/-- non-vacuity (run): Figure 8 of Tikka & Karvanen / `test_transport_1` — two source domains with experiments on `X1`
+and `X2`; TRSO returns an estimand that uses BOTH source experiments (line 4, then line 6 twice), so `trso_sound`
+applies to a run through lines 4, 6, 2, 9 in two different source domains -/
+example : ∃ e, identifyTargetOutcomes dSeparated
+    (MG.fromEdges [] [(0, 3), (0, 4), (2, 3), (2, 4), (5, 3), (5, 1), (1, 4), (5, 4)] [(0, 3), (5, 2), (5, 1)])
+    [3, 4] [0, 1] [(1001, [3]), (1002, [4])] [(1001, [0]), (1002, [1])] = .ok (some e) := ⟨_, rfl⟩
+
+/-- non-vacuity (families): for every well-formed acyclic graph and every marking `Δ` a compatible family exists (all
+domains equal to the coin model); families whose source domains differ at the marked variables are what the
+exact-rational oracle of the harness draws -/
+example (G : MG Name) (Δ : List (Name × List Name)) : (coinFam G).SelectionCompatible G Δ :=
+  ⟨fun _ => rfl, coinScm_compatible G, rfl, fun _ _ => ⟨coinScm_compatible G, rfl, rfl, rfl, rfl, fun _ _ _ => rfl⟩⟩
 
 end Trso
 end Y0
